@@ -497,3 +497,187 @@ Proof. eexists. split; [vm_compute; reflexivity|]. split; reflexivity. Qed.
 
 Example ex_timer : exists s, run ex_cfg [AWrite [1]%N None; ATake] = Some s /\ qobjs s <> [] /\ armed s = true.
 Proof. eexists. split; [vm_compute; reflexivity|]. split; [discriminate|reflexivity]. Qed.
+
+(* ------------------------------------------------------------------ schedule independence without a timeout *)
+
+(* The partition of a stream of channel items into requests that the property describes when no timer
+   exists: cut when batchSize writes are together, or at a flush marker if something is waiting. *)
+Fixpoint part (bsz : nat) (items : list item) (cur : list qwrite) : list (list qwrite) * list qwrite :=
+  match items with
+  | [] => ([], cur)
+  | IW w :: r =>
+      let cur' := cur ++ [w] in
+      if Nat.eqb (length cur') bsz then let (g, c) := part bsz r [] in (cur' :: g, c) else part bsz r cur'
+  | IFlush :: r =>
+      match cur with
+      | [] => part bsz r []
+      | _ => let (g, c) := part bsz r [] in (cur :: g, c)
+      end
+  end.
+
+(* the items a schedule puts on the channel: numbered accepted writes, and flush markers *)
+Fixpoint items_of (z : Z) (closed : bool) (l : list action) : list item :=
+  match l with
+  | [] => []
+  | AWrite o f :: r => if closed then items_of z closed r
+                       else IW {| q_seq := z + 1; q_objs := o; q_fc := f |} :: items_of (z + 1) closed r
+  | AFlush :: r => IFlush :: items_of z closed r
+  | AClose :: r => items_of z true r
+  | _ :: r => items_of z closed r
+  end.
+
+Lemma part_app : forall bsz l1 l2 cur,
+  part bsz (l1 ++ l2) cur =
+  let (g1, c1) := part bsz l1 cur in let (g2, c2) := part bsz l2 c1 in (g1 ++ g2, c2).
+Proof.
+  intros bsz l1. induction l1 as [|i l1 IH]; intros l2 cur; cbn [app part].
+  - destruct (part bsz l2 cur). reflexivity.
+  - destruct i as [w|].
+    + destruct (Nat.eqb (length (cur ++ [w])) bsz).
+      * rewrite IH. destruct (part bsz l1 []) as [g1 c1]. destruct (part bsz l2 c1). reflexivity.
+      * apply IH.
+    + destruct cur as [|x cur]; [apply IH|].
+      rewrite IH. destruct (part bsz l1 []) as [g1 c1]. destruct (part bsz l2 c1). reflexivity.
+Qed.
+
+(* everything the loop has produced, followed by what it will produce from the items still in the channel *)
+Definition virt (c : cfg) (s : state) : list (list qwrite) * list qwrite :=
+  let (g, cur) := part (batchSize c) (chan s) (qobjs s) in (map b_ws (batches s) ++ g, cur).
+
+Lemma write_fn_virt : forall s ch q ar, pend s = None ->
+  let s1 := write_fn s ch q ar in
+  map b_ws (batches s1) = map b_ws (batches s) ++ (match q with [] => [] | _ => [q] end) /\
+  qobjs s1 = [] /\ chan s1 = ch.
+Proof.
+  intros s ch q ar Hp. unfold write_fn. destruct q as [|w q'].
+  - cbn [merge]. cbn. unfold batches. cbn. rewrite app_nil_r. auto.
+  - destruct (merge_some (w :: q')) as (b & Hm & Hb); [congruence|]. rewrite Hm.
+    unfold batches. rewrite Hp. destruct (slot s); cbn; rewrite !map_app; cbn; rewrite Hb, ?app_nil_r, <- ?app_assoc; auto.
+Qed.
+
+Lemma step_virt : forall c s a s', (0 < batchSize c)%nat -> timed c = false -> Inv c s ->
+  step c s a = Some s' ->
+  virt c s' =
+  match a with
+  | AWrite o f =>
+      if done s then virt c s
+      else let (g, cur) := virt c s in
+           let (g', cur') := part (batchSize c) [IW {| q_seq := seq s + 1; q_objs := o; q_fc := f |}] cur in (g ++ g', cur')
+  | AFlush => let (g, cur) := virt c s in let (g', cur') := part (batchSize c) [IFlush] cur in (g ++ g', cur')
+  | _ => virt c s
+  end.
+Proof.
+  intros c s a s' Hb Ht I H. destruct a as [o f| | | | | | | ]; cbn [step] in H.
+  - destruct (done s); [inversion H; subst; reflexivity|]. destruct (Nat.ltb _ _); [|discriminate].
+    inversion H; subst. unfold virt, batches. cbn [chan qobjs out slot pend]. rewrite part_app.
+    destruct (part (batchSize c) (chan s) (qobjs s)) as [g cur].
+    destruct (part (batchSize c) [IW _] cur) as [g' cur']. rewrite app_assoc. reflexivity.
+  - destruct (Nat.ltb _ _); [|discriminate].
+    inversion H; subst. unfold virt, batches. cbn [chan qobjs out slot pend]. rewrite part_app.
+    destruct (part (batchSize c) (chan s) (qobjs s)) as [g cur].
+    destruct (part (batchSize c) [IFlush] cur) as [g' cur']. rewrite app_assoc. reflexivity.
+  - destruct (loop_free s) eqn:Hlf; [|discriminate]. apply loop_free_true in Hlf as [_ Hp].
+    destruct (chan s) as [|[w|] r] eqn:Hch; [discriminate| |].
+    + destruct (Nat.eqb (length (qobjs s ++ [w])) (batchSize c)) eqn:Hfull.
+      * inversion H; subst. destruct (write_fn_virt s r (qobjs s ++ [w]) false Hp) as (Hm & Hq & Hc).
+        unfold virt. rewrite Hm, Hq, Hc, Hch. cbn [part]. rewrite Hfull.
+        destruct (part (batchSize c) r []) as [g cur]. destruct (qobjs s ++ [w]) eqn:E; [destruct (qobjs s); discriminate|].
+        rewrite <- app_assoc. reflexivity.
+      * inversion H; subst. unfold virt, batches. cbn [chan qobjs out slot pend]. rewrite Hch. cbn [part]. rewrite Hfull. reflexivity.
+    + inversion H; subst. destruct (write_fn_virt s r (qobjs s) false Hp) as (Hm & Hq & Hc).
+      unfold virt. rewrite Hm, Hq, Hc, Hch. cbn [part]. destruct (qobjs s) as [|x q'].
+      * rewrite app_nil_r. reflexivity.
+      * destruct (part (batchSize c) r []) as [g cur]. rewrite <- app_assoc. reflexivity.
+  - (* no timer without a timeout *)
+    destruct (loop_free s); [|discriminate]. destruct (armed s) eqn:Ha; [|discriminate].
+    destruct (I_arm1 c s I Ha) as [_ Htm]. congruence.
+  - destruct (slot s) as [b|] eqn:Hsl; [|discriminate]. inversion H; subst.
+    unfold virt, batches. cbn [chan qobjs out slot pend]. rewrite Hsl. cbn [ol]. rewrite app_nil_r, <- app_assoc. reflexivity.
+  - destruct (nth_error _ _); [|discriminate]. inversion H; subst. reflexivity.
+  - inversion H; subst. reflexivity.
+  - destruct (done s && loop_free s); [|discriminate]. inversion H; subst. reflexivity.
+Qed.
+
+Lemma run_from_virt : forall c l s s', (0 < batchSize c)%nat -> timed c = false -> Inv c s ->
+  run_from c s l = Some s' ->
+  virt c s' = let (g, cur) := virt c s in
+              let (g', cur') := part (batchSize c) (items_of (seq s) (done s) l) cur in (g ++ g', cur').
+Proof.
+  intros c l. induction l as [|a l IH]; intros s s' Hb Ht I H; cbn [run_from] in H.
+  - inversion H; subst. cbn. destruct (virt c s'). rewrite app_nil_r. reflexivity.
+  - destruct (step c s a) as [s1|] eqn:E; [|discriminate].
+    pose proof (step_inv c s a s1 Hb I E) as I1. rewrite (IH s1 s' Hb Ht I1 H).
+    rewrite (step_virt c s a s1 Hb Ht I E). pose proof (step_hist c s a s1 E) as [Hd1 Hd2].
+    destruct a as [o f| | | | | | | ]; cbn [items_of].
+    + destruct (done s) eqn:Hd.
+      * destruct (Hd1 eq_refl) as [_ Hd']. rewrite Hd'.
+        assert (Hs : seq s1 = seq s). { cbn [step] in E. rewrite Hd in E. inversion E; subst. reflexivity. }
+        rewrite Hs. reflexivity.
+      * destruct (Hd2 eq_refl) as (_ & Hs & Hd'). rewrite Hs, Hd'.
+        set (w0 := {| q_seq := seq s + 1; q_objs := o; q_fc := f |}).
+        remember (items_of (seq s + 1) false l) as its eqn:Hits.
+        destruct (virt c s) as [g cur]. change (IW w0 :: its) with ([IW w0] ++ its).
+        rewrite (part_app (batchSize c) [IW w0] its cur).
+        destruct (part (batchSize c) [IW w0] cur) as [g1 c1].
+        destruct (part (batchSize c) its c1) as [g2 c2].
+        rewrite app_assoc. reflexivity.
+    + assert (Hs : seq s1 = seq s /\ done s1 = done s).
+      { cbn [step] in E. destruct (Nat.ltb _ _); inversion E; subst. auto. }
+      destruct Hs as [Hs Hd']. rewrite Hs, Hd'.
+      remember (items_of (seq s) (done s) l) as its eqn:Hits.
+      destruct (virt c s) as [g cur]. change (IFlush :: its) with ([IFlush] ++ its).
+      rewrite (part_app (batchSize c) [IFlush] its cur).
+      destruct (part (batchSize c) [IFlush] cur) as [g1 c1].
+      destruct (part (batchSize c) its c1) as [g2 c2].
+      rewrite app_assoc. reflexivity.
+    + destruct (done s) eqn:Hd; [destruct (Hd1 eq_refl) as [_ Hd']|destruct (Hd2 eq_refl) as (_ & Hs & Hd')].
+      * assert (Hs : seq s1 = seq s).
+        { cbn [step] in E. destruct (loop_free s); [|discriminate]. destruct (chan s) as [|[w|] r]; [discriminate| |].
+          - destruct (Nat.eqb _ _); inversion E; subst; [apply write_fn_fields|reflexivity].
+          - inversion E; subst. apply write_fn_fields. }
+        rewrite Hs, Hd'. reflexivity.
+      * rewrite Hs, Hd'. reflexivity.
+    + destruct (done s) eqn:Hd; [destruct (Hd1 eq_refl) as [_ Hd']|destruct (Hd2 eq_refl) as (_ & Hs & Hd')].
+      * assert (Hs : seq s1 = seq s).
+        { cbn [step] in E. destruct (loop_free s && armed s); inversion E; subst. apply write_fn_fields. }
+        rewrite Hs, Hd'. reflexivity.
+      * rewrite Hs, Hd'. reflexivity.
+    + destruct (done s) eqn:Hd; [destruct (Hd1 eq_refl) as [_ Hd']|destruct (Hd2 eq_refl) as (_ & Hs & Hd')].
+      * assert (Hs : seq s1 = seq s). { cbn [step] in E. destruct (slot s); inversion E; subst. reflexivity. }
+        rewrite Hs, Hd'. reflexivity.
+      * rewrite Hs, Hd'. reflexivity.
+    + destruct (done s) eqn:Hd; [destruct (Hd1 eq_refl) as [_ Hd']|destruct (Hd2 eq_refl) as (_ & Hs & Hd')].
+      * assert (Hs : seq s1 = seq s). { cbn [step] in E. destruct (nth_error _ _); inversion E; subst. reflexivity. }
+        rewrite Hs, Hd'. reflexivity.
+      * rewrite Hs, Hd'. reflexivity.
+    + assert (Hs : seq s1 = seq s /\ done s1 = true). { cbn [step] in E. inversion E; subst. auto. }
+      destruct Hs as [Hs Hd']. rewrite Hs, Hd'.
+      assert (Hcl : forall z l0, items_of z (done s) l0 = items_of z (done s) l0) by reflexivity.
+      destruct (done s) eqn:Hd; [reflexivity|]. reflexivity.
+    + destruct (done s) eqn:Hd; [destruct (Hd1 eq_refl) as [_ Hd']|destruct (Hd2 eq_refl) as (_ & Hs & Hd')].
+      * assert (Hs : seq s1 = seq s). { cbn [step] in E. destruct (done s && loop_free s); inversion E; subst. reflexivity. }
+        rewrite Hs, Hd'. reflexivity.
+      * rewrite Hs, Hd'. reflexivity.
+Qed.
+
+(* Without a timeout, the requests that are or will be produced depend only on the order in which writes and
+   flush markers entered the channel — not on how the loop, the consumer and the producers were interleaved.
+   In particular two schedules with the same items that have drained the channel delivered/produced the same
+   requests and hold the same leftover. *)
+Lemma untimed_deterministic : forall c, (0 < batchSize c)%nat -> timed c = false -> forall l s, run c l = Some s ->
+  virt c s = part (batchSize c) (items_of (seq0 c) false l) [].
+Proof.
+  intros c Hb Ht l s H. rewrite (run_from_virt c l (init c) s Hb Ht (inv_init c Hb) H). cbn.
+  destruct (part (batchSize c) (items_of (seq0 c) false l) []). reflexivity.
+Qed.
+
+Lemma untimed_drained : forall c, (0 < batchSize c)%nat -> timed c = false -> forall l s, run c l = Some s -> chan s = [] ->
+  (map b_ws (batches s), qobjs s) = part (batchSize c) (items_of (seq0 c) false l) [].
+Proof.
+  intros c Hb Ht l s H Hc. rewrite <- (untimed_deterministic c Hb Ht l s H). unfold virt. rewrite Hc. cbn. rewrite app_nil_r. reflexivity.
+Qed.
+
+Example ex_part : part 2 (items_of 0 false [AFlush; AWrite [1]%N None; ATake; AWrite [2]%N None; AWrite [3]%N None; AFlush; AClose; AWrite [4]%N None]) []
+  = ([[{| q_seq := 1; q_objs := [1%N]; q_fc := None |}; {| q_seq := 2; q_objs := [2%N]; q_fc := None |}];
+      [{| q_seq := 3; q_objs := [3%N]; q_fc := None |}]], []).
+Proof. reflexivity. Qed.
